@@ -510,7 +510,7 @@ def reset_discipline(rep, rule, idx, class_specs, allowed=(), allowed_init=()):
     allowed_init = dict(allowed_init)       # (class qual, name) -> accepted init expression (source text)
     for spec in class_specs:
         try:
-            cls = idx.find_class(spec)
+            cls = idx.find_class(spec) if isinstance(spec, str) else spec
         except Exception:
             cls = None
         if cls is None:
